@@ -3,7 +3,7 @@
 # (PT_REPO points the machinery at the scratch tree). Every check must stay silent (rc=0).
 WT=${1:-/tmp/wt_self}
 cd /repo && (git worktree list | grep -q "$WT" || git worktree add -q --detach "$WT" HEAD)
-PROPS="C01 C02 C03 C04 C05 C06 C07 C08 C09 C10 C11 C12 C13 C14 C16 C17 C18 C19 C20"
+PROPS="C01 C02 C03 C04 C05 C06 C07 C08 C09 C10 C11 C12 C13 C14 C15 C16 C17 C18 C19 C20"
 fail=0
 # run from a snapshot of /verif's code (sharing .work and the driver), so that editing /verif meanwhile does not disturb the run
 SNAP=$(mktemp -d /tmp/verif_snap.XXXXXX)
